@@ -184,6 +184,7 @@ type Spec struct {
 	Wrap   bool   `json:"wrap,omitempty"`   // argument expressions wrapped in rt.Arg (C15)
 	NArgs  int    `json:"nargs,omitempty"`  // number of wrapped argument expressions, in source order
 	Shadow bool   `json:"shadow,omitempty"` // enclosing function declares locals named like generated identifiers and uses them in arguments
+	Bare   bool   `json:"bare,omitempty"`   // argument values are first stored in locals named like generated identifiers and passed as bare identifiers
 	Encl   string `json:"encl,omitempty"`   // "" | closure | generic: shape of the enclosing function
 	Paren  bool   `json:"paren,omitempty"`  // top-level options written in parentheses
 	Extra  int    `json:"extra,omitempty"`  // number of trivial extra directives in the same function (1: before, 2: before and after)
